@@ -1,4 +1,5 @@
 import Bt.Algos.Report
+import Bt.Algos.Renorm
 import Bt.Driver.Engine
 import Bt.Driver.Tok
 /-
@@ -12,6 +13,8 @@ import Bt.Driver.Tok
     report replay <boSet> <tol> <comm kind m k> <cash0> <secs: list (name mult)>
                   <txns: list (date name qty? price?)> <t0> <pxs: list (list (name price?))>
       -> ok <list (cash positions value|E err)>  |  err <error>
+    report renorm <par> <v> <values: list float> <flows: list float>
+      -> ok <list price?>      (RenormalizedFixedIncomeResult._price; a NaN row travels as N)
 -/
 namespace Bt.Driver
 open Bt.Tok Bt.Report
@@ -87,11 +90,18 @@ def pReplay : P String := do
   | .error e => pure ("err " ++ e.toString)
   | .ok l => pure ("ok " ++ " ".intercalate (pList prState (withValues tol l pxs)))
 
+def pRenorm : P String := do
+  let par ← float; let v ← float
+  let values ← list float; let flows ← list float
+  let out := Renorm.renormPrices par v values flows
+  pure ("ok " ++ " ".intercalate (pList (fun (x : Float) => if x.isNaN then ["N"] else pFloat x) out))
+
 def pReport : P String := do
   let kind ← next
   match kind with
   | "hist" => pHist
   | "replay" => pReplay
+  | "renorm" => pRenorm
   | _ => throw s!"unknown report request {kind}"
 
 end Rep
